@@ -32,6 +32,8 @@ def build(sp, parent=None, index=None):
         n.add_extras(k, v)
     for c in sp.get("k", []):
         build(c, n)
+    for k, v in sp.get("lns", {}).items():   # namespaces declared after the subtree exists
+        n.add_namespace(k, v)
     return n
 
 
@@ -402,7 +404,7 @@ def chain_spec(draw, max_depth=100):
 
 def _copy(sp):
     out = dict(sp)
-    for k in ("a", "x", "ns"):
+    for k in ("a", "x", "ns", "lns"):
         if k in out:
             out[k] = dict(out[k])
     if "k" in out:
